@@ -208,25 +208,54 @@ def run(ck, ctx):
     def r146():
         res = CG.res.value
         beta = I.res(CG.column("beta_rad"), st)
-        ok = res.op == "Phi" and res.args[0].op == "Compare" and res.args[0].attr == "Eq"
+        def zero_test(c):
+            """(counted quantity, truth value of c when the count is zero) for any spelling of 'no survivor':
+            n == 0, not n, n != 0, n > 0, n < 1, 0 == n ..."""
+            if c.op == "Compare" and len(c.args) == 2:
+                l, r_ = c.args
+                flip = {"Lt": "Gt", "Gt": "Lt", "LtE": "GtE", "GtE": "LtE", "Eq": "Eq", "NotEq": "NotEq"}
+                op_ = c.attr
+                if l.op == "Const" and r_.op != "Const" and op_ in flip:
+                    l, r_, op_ = r_, l, flip[op_]
+                if r_.op == "Const" and type(r_.attr) is int:
+                    k = r_.attr
+                    table_ = {("Eq", 0): True, ("NotEq", 0): False, ("Gt", 0): False, ("LtE", 0): True,
+                              ("Lt", 1): True, ("GtE", 1): False}
+                    if (op_, k) in table_:
+                        return l, table_[(op_, k)]
+                return None
+            if c.op == "UnaryOp" and c.attr == "Not":
+                inner = zero_test(c.args[0]) or (c.args[0], False)
+                return inner[0], not inner[1]
+            return c, False         # truthiness of the count
+
+        def counts_survivors(sz):
+            x = None
+            if sz.op == "Attr" and sz.attr == "size":
+                x = sz.args[0]
+            elif sz.op == "Len":
+                x = sz.args[0]
+            elif sz.op == "Subscript" and sz.args[0].op == "Attr" and sz.args[0].attr == "shape" and \
+                    sz.args[1].op == "Const" and sz.args[1].attr == 0:
+                x = sz.args[0].args[0]
+            return x is not None and CG.col_matches(x, "beta_rad")
+        ok = res.op == "Phi"
         c = res.args[0] if ok else None
-        if ok:
-            l, r_ = c.args
-            sz, zero = (l, r_) if r_.op == "Const" else (r_, l)
-            ok = zero.op == "Const" and zero.attr == 0 and sz.op == "Attr" and sz.attr == "size" and \
-                CG.col_matches(sz.args[0], "beta_rad")
+        zt = zero_test(c) if ok else None
+        ok = bool(zt) and counts_survivors(zt[0])
         ck.ob("R14.6", "compute() returns the table early exactly when the geometry stage has no survivor "
               "(beta_tr.size == 0)", ok, res, func, g.show(c, 3) if c is not None else g.show(res, 2))
         if not ok:
             return
-        table_arm = res.args[1]
+        zero_pol = zt[1]
+        table_arm = res.args[1] if zero_pol else res.args[2]
         inits = CG.calls("init")
         ck.ob("R14.6", "the early return hands back the results table (valid, with the geometry columns only)",
               bool(inits) and any(x is I.res(inits[0][3], st) or x is inits[0][3] for x in walk([table_arm])),
               table_arm, func, g.show(table_arm, 2))
         geom_stores = {id(e) for v, e in CG.columns.get("beta_rad", [])}
         late = [e for e in CG.column_effects if id(e) not in geom_stores]
-        bad = [e for e in late if not any(cc is c and p is False for cc, p in e.pc)]
+        bad = [e for e in late if not any(cc is c and p is (not zero_pol) for cc, p in e.pc)]
         ck.ob("R14.6", "every later stage is dominated by the zero-survivor test", not bad, res, func,
               f"{len(late)} later column stores inspected; not dominated: " + ", ".join(e.where() for e in bad[:3]))
         rngs = [e for e in CG.effects if e.kind == "rng" and not any(cc is c for cc, p in e.pc)
